@@ -113,7 +113,7 @@ func genHistory(e *Env, i, length int) []histStep {
 	r := Rng(e.Seed, "c18", i)
 	var hs []histStep
 	hs = append(hs, histStep{Op: "switch", Var: i % c18NVariants})
-	damages := []string{"stale", "noncompiling", "truncated", "garbage", "tail", "longer-variant", "same-length", "whitespace", "comment-before-header", "future-mtime", "ancient-mtime"}
+	damages := []string{"stale", "noncompiling", "truncated", "garbage", "tail", "longer-variant", "same-length", "whitespace", "comment-before-header", "future-mtime", "ancient-mtime", "crlf", "crlf-stale", "bom"}
 	for len(hs) < length {
 		switch x := r.Intn(12); {
 		case x < 3:
@@ -261,6 +261,19 @@ func CheckC18(e *Env) int {
 				case "longer-variant":
 					// the output of the variant that extends the short one
 					b = ref[4]
+				case "crlf", "crlf-stale", "bom":
+					// the up-to-date (or another variant's) content with CRLF line endings / a byte order mark
+					base := ref[1]
+					if c18Accepted[cur] && h.Arg != "crlf-stale" {
+						base = ref[cur]
+					} else if cur == 1 {
+						base = ref[0]
+					}
+					if h.Arg == "bom" {
+						b = append([]byte("\xef\xbb\xbf"), base...)
+					} else {
+						b = []byte(strings.ReplaceAll(string(base), "\n", "\r\n"))
+					}
 				case "same-length", "whitespace", "comment-before-header", "future-mtime", "ancient-mtime":
 					base := ref[1]
 					if c18Accepted[cur] {
